@@ -26,20 +26,19 @@ def rowHeader (r : Row) : Bool :=
   | some m => r.includes.contains m.header
   | none => false
 
-/-- the declared result type can hold the function's value -/
-def rowReturnDouble (r : Row) : Bool := r.ret == "double"
-
 /-- the declared result type is one `most_accurate_type` knows: usable in arithmetic -/
 def rowArith (prio : List (String × Nat)) (r : Row) : Bool := (assoc prio r.ret).isSome
 
-/-- the declared result type is the type C++ gives the call (on `double` arguments) -/
+/-- the declared result type is the type C++ gives the call on `double` arguments (`double`, or
+`int` for `ilogb`): the value is held exactly *and* the arithmetic around the call is typed as the
+C++ compiler types it -/
 def rowRetFaithful (r : Row) : Bool :=
   match meaningCpp r.cpp with
   | some m => CT.ofName r.ret == cppRet r.cpp (m.params.map fun _ => CT.dbl)
   | none => false
 
 def SpecRow (prio : List (String × Nat)) (r : Row) : Bool :=
-  rowNamesake r && rowHeader r && rowReturnDouble r && rowArith prio r
+  rowNamesake r && rowHeader r && rowRetFaithful r && rowArith prio r
 
 /-- every documented name is a key of the table -/
 def documentedPresent (t : List Row) (readme : List String) : Bool := readme.all (· ∈ keys t)
@@ -149,15 +148,15 @@ def ScopedArgs (c : Cfg) : List PExpr → Bool
       | _ => Scoped c a) && ScopedArgs c as
 end
 
-/- `Clean c e`: `e` stays out of the four classes of inputs on which the code is known to be wrong
-(`round`: refused; `remquo`: needs an `int*`; `ilogb`: declared `double`, returns `int`; `abs` of
-integers only: `std::abs(int)` is `int`) and has no `float` operand (single precision is outside
+/- `Clean c e`: `e` stays out of the two classes of inputs on which the code is known to be wrong
+(`remquo`: needs an `int*`; `abs` of integers only: `std::abs(int)` is `int`, declared `double`)
+and has no `float` operand (single precision is outside
 the abstraction). -/
 mutual
 def Clean (c : Cfg) : PExpr → Bool
   | .leaf _ ty => ty != "float"
   | .call f args =>
-    !(f ∈ ["round", "remquo", "ilogb"]) &&
+    !(f ∈ ["remquo"]) &&
     (f != "abs" || (args.map (argTy c)).isEmpty || !(args.map (argTy c)).all (· == .int)) &&
     CleanArgs c args
   | .bin _ l r => Clean c l && Clean c r
